@@ -22,7 +22,7 @@ def run_case(exe_path, workdir, stub, nl_text, opts=(), acc=None, flags=None, sc
         elif os.path.exists(p):
             os.unlink(p)
     for ext in ('.sol', '.trace'):
-        if os.path.exists(base + ext):
+        if os.path.isfile(base + ext):
             os.unlink(base + ext)
     env = {'MON_TRACE': base + '.trace'}
     if acc:
@@ -46,6 +46,6 @@ def run_case(exe_path, workdir, stub, nl_text, opts=(), acc=None, flags=None, sc
                     trace.append(json.loads(l))
                 except ValueError:
                     trace.append({'ev': 'unparsable', 'raw': l[:300]})
-    sol = open(base + '.sol', 'rb').read() if os.path.exists(base + '.sol') else None
+    sol = open(base + '.sol', 'rb').read() if os.path.isfile(base + '.sol') else None
     r.update(trace=trace, sol=sol, cmd=cmd, env=env, base=base)
     return r
